@@ -444,10 +444,38 @@ def r5_graph_links_and_constructor(ctx, rep):
            "the module default (hidden although selected, or documented although unselected)", py.nloc(tc))
 
 
+
+def r6_display_inheritance(ctx, rep):
+    """_set_display installs the entity's own `display` metadata when it is non-empty and the parent's selection
+    otherwise; so an entity without a `display:` line of its own must have an empty meta.display - the project-wide value
+    must not be copied into every entity's settings"""
+    py = ctx.py
+    sd = py.func("FortranBase._set_display")
+    ev = astq.trace(sd)
+    inherits = [e for e in ev if e.kind == "assign" and e.target == "self.display" and e.value is not None
+                and "parent.display" in ast.unparse(e.value)]
+    own = [e for e in ev if e.kind == "assign" and e.target == "self.display" and e not in inherits]
+    keyed_on_meta = any("meta.display" in ast.unparse(x) for e in own if e.value is not None for x in astq.expand_locals(e.value, sd))
+    rep.ob("_set_display: own metadata or the parent's selection", bool(inherits) and keyed_on_meta, "", py.nloc(sd))
+    fps = py.func("EntitySettings.from_project_settings")
+    copied = [k.arg for c in py.walk_calls(fps) for k in c.keywords if k.arg == "display"]
+    copied += [n for n in ast.walk(fps) if isinstance(n, ast.Assign) and any(ast.unparse(t).endswith(".display") for t in n.targets)]
+    ci = py.cls("EntitySettings")
+    dflt = ci.class_attrs.get("display")
+    empty_default = dflt is None or (isinstance(dflt, ast.Call) and "default_factory=list" in ast.unparse(dflt).replace(" ", "")) or \
+        (isinstance(dflt, (ast.List, ast.Tuple)) and not dflt.elts)
+    ok = not copied and empty_default
+    rep.ob("entities without a `display:` line have no display setting of their own", ok,
+           "EntitySettings.display defaults to empty and is not copied from the project settings" if ok else
+           "every entity's settings carry the project-wide `display`, so _set_display re-installs it on every entity instead of "
+           "inheriting the parent's: an entity-level `display:` override is lost from its grandchildren on", py.nloc(fps))
+
+
 RULES = [
     RuleSpec("C05.R5", r5_graph_links_and_constructor, "graph links are visibility-gated; constructors follow their type", floor=1),
     RuleSpec("C05.R1", r1_prune_coverage, "prune covers every rendered child collection", floor=20),
     RuleSpec("C05.R2", r2_lists_after_prune, "page lists are gathered after pruning", floor=5),
     RuleSpec("C05.R3", r3_links_to_visible, "hrefs to other entities are visibility-guarded", floor=3),
     RuleSpec("C05.R4", r4_display_logic, "display/hide_undoc/proc_internals logic", floor=4),
+    RuleSpec("C05.R6", r6_display_inheritance, "display selection is inherited through the parent, not re-installed", floor=2),
 ]
